@@ -705,14 +705,8 @@ func (p *nfs41Program) opSequence(ctx context.Context, args *nfsv4.Sequence4args
 		// of the previous call, only after making sure that the
 		// cached response has the same shape as the request.
 		defer p.leave()
-		cachedResults := slot.lastResult.resArray[1:]
-		if len(cachedResults) > len(argArray) || (slot.lastResult.status == nfsv4.NFS4_OK && len(cachedResults) != len(argArray)) {
+		if !slot.lastResult.hasShapeOfRequest(argArray) {
 			return sequenceCompoundResultSeqFalseRetry
-		}
-		for i, res := range cachedResults {
-			if opNum := res.GetResop(); opNum != argArray[i].GetArgop() && opNum != nfsv4.OP_ILLEGAL {
-				return sequenceCompoundResultSeqFalseRetry
-			}
 		}
 		return slot.lastResult
 	case slot.lastSequenceID + 1:
@@ -722,7 +716,15 @@ func (p *nfs41Program) opSequence(ctx context.Context, args *nfsv4.Sequence4args
 			ch := make(chan compoundResult, 1)
 			slot.currentSequenceWaiters = append(slot.currentSequenceWaiters, ch)
 			p.leave()
-			return <-ch
+			// Just like for replays of completed requests,
+			// only hand out the results of the original
+			// request if they have the same shape as this
+			// request.
+			result := <-ch
+			if !result.hasShapeOfRequest(argArray) {
+				return sequenceCompoundResultSeqFalseRetry
+			}
+			return result
 		}
 
 		// Throw away the previously cached results, as we know
@@ -1219,6 +1221,22 @@ func (sid *nfs41RegularStateID) incrementSeqID() {
 type compoundResult struct {
 	resArray []nfsv4.NfsResop4
 	status   nfsv4.Nfsstat4
+}
+
+// hasShapeOfRequest returns whether the results can have been produced
+// by a compound request consisting of SEQUENCE followed by the provided
+// operations. It is used to detect false retries.
+func (r *compoundResult) hasShapeOfRequest(argArray []nfsv4.NfsArgop4) bool {
+	results := r.resArray[1:]
+	if len(results) > len(argArray) || (r.status == nfsv4.NFS4_OK && len(results) != len(argArray)) {
+		return false
+	}
+	for i, res := range results {
+		if opNum := res.GetResop(); opNum != argArray[i].GetArgop() && opNum != nfsv4.OP_ILLEGAL {
+			return false
+		}
+	}
+	return true
 }
 
 func newSequenceCompoundResultForError(status nfsv4.Nfsstat4) compoundResult {
